@@ -47,6 +47,8 @@ def validate_symbols_trace(ctx, nruns, name="rec"):
         p = dp["problem"]
         if "failed:" in p:
             sig = "replay:sym:operation-refused:" + p.split(" failed")[0] + ":" + re.sub(r"[^A-Za-z]", "", p.split("failed: ")[1])[:40]
+        elif "does not reload" in p:
+            sig = "replay:sym:token-does-not-reload"
         elif "Biscuit and UnverifiedBiscuit" in p:
             sig = "replay:sym:sources-verified-vs-unverified"
         elif "block sources differ" in p:
